@@ -1069,7 +1069,7 @@ theorem sumK_wholeSel (q : Rat) (ae : Bool) (prev maxS : IMap) (votes : Votes) :
 theorem wholeAward_nil {q : Rat} (hq : 0 < q) (ae : Bool) (p : Cand × Rat) (hv : 0 ≤ p.2) :
     wholeAward q ae [] [] p = wholeQ q ae p.2 := by
   unfold wholeAward
-  rw [getI_nil]
+  rw [getI_nil, capQ_nil]
   have := wholeQ_nonneg hq ae hv
   rw [max_eq_left (by omega)]; ring
 
@@ -1320,6 +1320,88 @@ theorem quota_rule_aux (q : Rat) (ae : Bool) (votes : Votes) (hnd0 : (votes.map 
         rw [hseats]; split <;> omega
 
 
+
+/-! ### withdrawals only lower a party's seats -/
+
+theorem getK_delK_self (s : Sel) (k : Key) (d : Int) : getK (delK s k) k d = d := by
+  apply getK_of_not_hasK
+  rw [← Bool.not_eq_true]
+  intro hh
+  have := (hasK_iff _ _).mp hh
+  rw [keys_delK, List.mem_filter] at this
+  simp at this
+
+theorem getK_delK_ne (s : Sel) {k k' : Key} (h : k' ≠ k) (d : Int) : getK (delK s k) k' d = getK s k' d := by
+  induction s with
+  | nil => rfl
+  | cons x xs ih =>
+    unfold delK at ih ⊢
+    rw [List.filter_cons]
+    by_cases hx : x.1 = k
+    · have : ¬ x.1 = k' := fun e => h (e.symm.trans hx)
+      simp only [hx, ne_eq, not_true_eq_false, decide_false, Bool.false_eq_true, if_false]
+      rw [ih, getK_cons, if_neg (by rw [hx]; exact fun e => h e.symm)]
+    · simp only [hx, ne_eq, not_false_eq_true, decide_true, if_true]
+      rw [getK_cons, getK_cons, ih]
+
+theorem getK_decK_le (s : Sel) (k k' : Key) : getK (decK s k) k' 0 ≤ getK s k' 0 := by
+  unfold decK
+  by_cases hk : k' = k
+  · subst hk
+    split
+    · rename_i h1; rw [getK_delK_self, h1]; omega
+    · rw [getK_setK_self]; omega
+  · split
+    · rw [getK_delK_ne _ hk]
+    · rw [getK_setK_ne _ hk]
+
+theorem foldl_decK_cand_le (cs : List Cand) (k : Key) : ∀ s : Sel,
+    getK (cs.foldl (fun acc c => decK acc (.cand c)) s) k 0 ≤ getK s k 0 := by
+  induction cs with
+  | nil => intro s; exact le_refl _
+  | cons c cs ih =>
+    intro s
+    simp only [List.foldl_cons]
+    exact le_trans (ih _) (getK_decK_le s _ k)
+
+theorem subtractStep_cand_le (votes : Votes) (q : Rat) (prev : IMap) (sel sel' : Sel) (c : Cand)
+    (h : subtractStep votes q prev sel = .ok sel') : getK sel' (.cand c) 0 ≤ getK sel (.cand c) 0 := by
+  unfold subtractStep at h
+  split at h
+  · cases h
+  · injection h with h; subst h; exact getK_decK_le _ _ _
+  · simp only at h
+    split at h
+    · cases h
+    · rename_i cs _
+      split at h
+      · injection h with h; subst h; exact getK_decK_le _ _ _
+      · injection h with h; subst h
+        rw [getK_setK_ne _ (by unfold mkTie; intro e; cases e)]
+        exact foldl_decK_cand_le cs _ sel
+
+theorem subtractLoop_cand_le (votes : Votes) (q : Rat) (prev : IMap) (k : Nat) (c : Cand) :
+    ∀ (sel r : Sel), subtractLoop votes q prev k sel = .ok r → getK r (.cand c) 0 ≤ getK sel (.cand c) 0 := by
+  induction k with
+  | zero => intro sel r h; unfold subtractLoop at h; injection h with h; subst h; exact le_refl _
+  | succ k ih =>
+    intro sel r h
+    unfold subtractLoop at h
+    split at h
+    · rename_i sel' hs
+      exact le_trans (ih sel' r h) (subtractStep_cand_le votes q prev sel sel' c hs)
+    · cases h
+
+theorem length_lrRems (q : Rat) (ae : Bool) (prev maxS : IMap) (votes : Votes) :
+    (lrRems q ae prev maxS votes).length = (votes.filter (fun p => eligible q ae prev maxS p)).length := by
+  unfold lrRems
+  induction votes with
+  | nil => rfl
+  | cons x xs ih =>
+    rw [List.filterMap_cons, List.filter_cons]
+    by_cases h : eligible q ae prev maxS x = true
+    · simp only [h, if_true, List.length_cons, ih]
+    · simp only [h, Bool.false_eq_true, if_false, ih]
 
 /-! ### which exceptions can escape -/
 
